@@ -81,6 +81,10 @@ class ReaderSelect(Scenario):
         vals = []
         for lv in range(ctx["m"].nlevels):
             nb = len(ctx["m"].boxes[lv])
+            # serial reads in the calling process first (whatever they leave behind - open handles,
+            # caches - is inherited by the workers forked for the pooled selections below)
+            vals.append(pck[0][lv][0])
+            vals.append(pck[[0, 1]][lv][nb - 1])
             vals.append(pck[:][lv][:])
             vals.append(pck[1][lv][list(range(nb - 1, -1, -1))])
             vals.append(pck[[0, 2]][lv][np.arange(nb) % 2 == 0])
